@@ -118,6 +118,7 @@ class SimSolver:
         self.n = 0
         self.keyed = True
         self.by_block = {}
+        self.asked = {}              # block -> number of queries seen (for the gives_up_once peer)
         self.mutator = None          # callable(reply_text, call_record) -> reply_text (C05 corrupt peer)
 
     def run_command(self, cmd):
@@ -138,13 +139,18 @@ class SimSolver:
         else:
             entry = self.default
         self.n += 1
+        if entry["kind"] == "gives_up_once":
+            # the solver runs out of time on the first query about a problem and answers honestly if it is asked again
+            seen = self.asked.get(block, 0)
+            self.asked[block] = seen + 1
+            entry = dict(entry, kind="no_model" if seen == 0 else "optimal")
         self.fs.event("solver_call", path + "#" + entry["kind"])
         f = self.fs.open(path, "r")
         text = f.read()
         f.close()
         reply = self.answer(text, entry, oms)
         rec = {"file": path, "block": block, "kind": entry["kind"], "head": reply.split("\n", 1)[0][:40], "oms": oms,
-               "smt2": text if entry.get("keep_smt2") else None}
+               "smt2": text if entry.get("keep_smt2") else None, "asserts": text.count("(assert "), "softs": text.count("(assert-soft ")}
         self.calls.append(rec)
         if self.mutator is not None:
             reply = self.mutator(reply, rec, text)
